@@ -100,7 +100,7 @@ func (s *pullStream) Send(m *traits.PullBookingsResponse) error {
 var bookingMasks = [][]string{nil, {"id", "booked"}, {"id", "title"}, {"id", "check_in"}}
 
 func bookingPhase(r *vk.Run) {
-	n := r.Pick(4000, 150000)
+	n := r.Pick(7000, 250000)
 	for i := 0; i < n; i++ {
 		if !r.Mine(i) {
 			continue
@@ -147,8 +147,8 @@ func (c *bookingCase) state() (map[string]*traits.Booking, bool) {
 	ok := true
 	for _, b := range res.Bookings {
 		m[b.Id] = proto.Clone(b).(*traits.Booking)
-		if !periodValid(b.Booked) {
-			ok = false
+		if b.Booked != nil && !periodValid(b.Booked) {
+			ok = false // an empty or inverted period is not an interval; a booking without any period is fine: it intersects nothing
 		}
 	}
 	return m, ok
@@ -283,6 +283,10 @@ func runBooking(r *vk.Run, rng *vk.Rand) {
 	bg := context.Background()
 	if !rng.Chance(1, 12) {
 		c.q = genPeriod(rng, true)
+		if rng.Chance(1, 6) {
+			c.q = &timepb.Period{} // "all time": still only bookings that have a period at all intersect it
+			r.Count("booking/all-time-requests", 1)
+		}
 	}
 	c.mask = bookingMasks[0]
 	if rng.Chance(1, 2) {
@@ -293,6 +297,10 @@ func runBooking(r *vk.Run, rng *vk.Rand) {
 	create := func() (string, error) {
 		nextID++
 		b := &traits.Booking{Id: fmt.Sprintf("k%d", nextID), Title: fmt.Sprintf("t%d", nextID), Booked: genPeriod(rng, true)}
+		if rng.Chance(1, 6) {
+			b.Booked = nil // a booking without a booked period intersects nothing
+			r.Count("booking/bookings-without-period", 1)
+		}
 		c.log("create %s %s", b.Id, periodString(b.Booked))
 		_, err := c.srv.CreateBooking(bg, &traits.CreateBookingRequest{Name: "room", Booking: b})
 		return b.Id, err
